@@ -228,7 +228,7 @@ func start(opts Options) (*App, error) {
 		return nil, err
 	}
 
-	ctx, cancel := context.WithTimeout(context.Background(), 15*time.Second)
+	ctx, cancel := context.WithTimeout(context.Background(), 60*time.Second)
 	defer cancel()
 
 	if err := a.app.Start(ctx); err != nil {
@@ -238,7 +238,7 @@ func start(opts Options) (*App, error) {
 	}
 
 	// wait until the main listener accepts connections
-	deadline := time.Now().Add(5 * time.Second)
+	deadline := time.Now().Add(45 * time.Second)
 	for {
 		c, err := net.DialTimeout("tcp", a.Addr, 200*time.Millisecond)
 		if err == nil {
